@@ -14,11 +14,11 @@ def gen(tier, rnd):
     cases = []
     cid = [0]
 
-    def case(cidn, ckey, table, hint='srv', acc=1, nq=2, inj=0, rel=0, idcb=1, drop=(), sni='', warm='', snik=(), dup=(), mute=0, sclose=0, obs=0, tk2=0):
+    def case(cidn, ckey, table, hint='srv', acc=1, nq=2, inj=0, rel=0, idcb=1, drop=(), sni='', warm='', snik=(), dup=(), mute=0, sclose=0, obs=0, tk2=0, nonq=0):
         cid[0] += 1
-        cases.append((cid[0], ['X id=%d cid=%s ckey=%s sk=%s hint=%s acc=%d nq=%d inj=%d rel=%d idcb=%d drop=%s sni=%s warm=%s snik=%s dup=%s mute=%d sclose=%d obs=%d tk2=%d'
+        cases.append((cid[0], ['X id=%d cid=%s ckey=%s sk=%s hint=%s acc=%d nq=%d inj=%d rel=%d idcb=%d drop=%s sni=%s warm=%s snik=%s dup=%s mute=%d sclose=%d obs=%d tk2=%d nonq=%d'
                                % (cid[0], cidn, ckey, ','.join('%s:%s' % kv for kv in table), hint, acc, nq, inj, rel, idcb, ','.join(map(str, drop)),
-                                  sni, warm, ','.join('%s:%s' % kv for kv in snik), ','.join(map(str, dup)), mute, sclose, obs, tk2), 'E']))
+                                  sni, warm, ','.join('%s:%s' % kv for kv in snik), ','.join(map(str, dup)), mute, sclose, obs, tk2, nonq), 'E']))
     K = 'secretkey0123456'
     keys = [K, K[:-1], K + 'x', K[:8], 'S' + K[1:], K.upper(), 'a', K * 2]
     # equal / different length / prefix / extension / one character off
@@ -70,6 +70,14 @@ def gen(tier, rnd):
     # the same with one-byte tokens 1..nq and the second request the first with state: KF_C19_APP_TOKEN_EQUALS_STATE_TOKEN (directed)
     case('mallory', K, [('alice', K)], nq=3, obs=2)
     case('alice', K, [('alice', K)], nq=2, obs=2)
+    # Non-confirmable requests among the queued ones: everything submitted before the session is up goes out in submission order, whatever its type
+    for nonq in (1, 2, 3, 9):
+        for nq in (2, 3, 4):
+            if nonq != 9 and nonq > nq:
+                continue
+            case('alice', K, [('alice', K)], nq=nq, nonq=nonq)
+            case('alice', K, [('alice', K)], nq=nq, nonq=nonq, idcb=0)
+            case('alice', 'wrongkey', [('alice', K)], nq=nq, nonq=nonq)
     # cleartext CoAP thrown at the DTLS endpoint: from a stranger and from the client's own address, credentials right and wrong
     for inj in (1, 2):
         case('alice', K, [('alice', K)], nq=2, inj=inj)
